@@ -760,6 +760,212 @@ theorem polygonFromGeoJson_eq (d : Obj) (ks ke : String) (harr : arr2 (oget (geo
           simp only [polygonTail1]
           polygon_model
 
+theorem pyMapE_eq_mem {α β : Type} (f g : α → Except String β) (l : List α) (h : ∀ x ∈ l, f x = g x) :
+    Py.mapE f l = GeoJson.mapE g l := by
+  have := pyMapE_map f g id l (fun x hx => by rw [h x hx]; cases g x <;> rfl)
+  rw [this]
+  cases GeoJson.mapE g l <;> simp [Except.map]
+
+/-- a list of lists -/
+def isArr2 : J → Bool
+  | .arr xs => xs.all isArr
+  | _ => false
+
+/-- absent, or a list of lists of lists (the polygons of a multi-polygon) -/
+def arr3 (j : Option J) : Bool :=
+  match j with
+  | none => true
+  | some (.arr xs) => xs.all isArr2
+  | some _ => false
+
+theorem arr3_some {c : J} (h : arr3 (some c) = true) : ∃ xs, c = .arr xs ∧ ∀ x ∈ xs, isArr2 x = true := by
+  cases c <;> simp [arr3] at h
+  exact ⟨_, rfl, h⟩
+
+/-- the member loop of `MultiGeoPolygon.from_geojson`: every polygon is read as the model's `mpolyMember` (rings, shell,
+    holes reversed before they go through the constructor), then the rest of the function runs on the collected shapes -/
+theorem mpolyLoop1_spec (d : Obj) (ks ke : String) (g : Obj) :
+    ∀ (xs : List J) (acc : List Poly), (∀ x ∈ xs, isArr2 x = true) →
+      mpolyFromGeoJson.loop1 rt d ks ke g xs acc =
+        match GeoJson.mapE mpolyMember xs with
+        | .error e => .error e
+        | .ok ps => mpolyFromGeoJson.loop1 rt d ks ke g [] (acc ++ ps) := by
+  intro xs
+  induction xs with
+  | nil => intro acc _; simp [GeoJson.mapE]
+  | cons x xs ih =>
+    intro acc h
+    have hx := h x (by simp)
+    cases x <;> simp [isArr2] at hx
+    rename_i rs
+    rw [mpolyFromGeoJson.loop1]
+    simp only [jIter, polygonInitDefault_eq]
+    rw [pyMapE_eq_mem _ ringOfJ rs (fun r hr => by
+      have := hx r hr
+      cases r <;> simp [isArr] at this
+      simp only [jIter, ringOfJ]
+      rw [pyMapE_eq_of _ posOfJ (fun x => by cases posOfJ x <;> rfl)]
+      rename_i ps
+      cases GeoJson.mapE posOfJ ps <;> rfl)]
+    simp only [GeoJson.mapE, mpolyMember, ringsOfJ, bind, Except.bind, pure, Except.pure]
+    cases GeoJson.mapE ringOfJ rs with
+    | error e => rfl
+    | ok rings =>
+      simp only []
+      match rings with
+      | [] => simp [Py.getIdx]
+      | [a] =>
+        simp only [Py.getIdx, List.length_singleton, GeoJson.mapE]
+        cases mkOutlineP a with
+        | error e => simp
+        | ok o =>
+          simp
+          rw [ih _ (fun y hy => h y (by simp [hy]))]
+          cases GeoJson.mapE mpolyMember xs with
+          | error e => rfl
+          | ok ps => simp [List.append_assoc]
+      | a :: b :: t =>
+        have hl : decide ((((a :: b :: t).length : Nat) : Int) > (1 : Int)) = true := by simp <;> omega
+        simp only [Py.getIdx, hl, if_true, List.drop_succ_cons, List.drop_zero]
+        rw [pyMapE_eq_of _ (fun r => mkOutlineP r.reverse) (fun x => by first | rfl | (cases mkOutlineP x.reverse <;> rfl))]
+        cases GeoJson.mapE (fun r => mkOutlineP r.reverse) (b :: t) with
+        | error e => simp
+        | ok hs =>
+          cases mkOutlineP a with
+          | error e => simp
+          | ok o =>
+            simp
+            rw [ih _ (fun y hy => h y (by simp [hy]))]
+            cases GeoJson.mapE mpolyMember xs with
+            | error e => rfl
+            | ok ps => simp [List.append_assoc]
+
+/-- (the same loop in the branch where `geom` is the `geometry` member) every polygon is read as the model's `mpolyMember` (rings, shell,
+    holes reversed before they go through the constructor), then the rest of the function runs on the collected shapes -/
+theorem mpolyLoop2_spec (d : Obj) (ks ke : String) (g : J) :
+    ∀ (xs : List J) (acc : List Poly), (∀ x ∈ xs, isArr2 x = true) →
+      mpolyFromGeoJson.loop2 rt d ks ke g xs acc =
+        match GeoJson.mapE mpolyMember xs with
+        | .error e => .error e
+        | .ok ps => mpolyFromGeoJson.loop2 rt d ks ke g [] (acc ++ ps) := by
+  intro xs
+  induction xs with
+  | nil => intro acc _; simp [GeoJson.mapE]
+  | cons x xs ih =>
+    intro acc h
+    have hx := h x (by simp)
+    cases x <;> simp [isArr2] at hx
+    rename_i rs
+    rw [mpolyFromGeoJson.loop2]
+    simp only [jIter, polygonInitDefault_eq]
+    rw [pyMapE_eq_mem _ ringOfJ rs (fun r hr => by
+      have := hx r hr
+      cases r <;> simp [isArr] at this
+      simp only [jIter, ringOfJ]
+      rw [pyMapE_eq_of _ posOfJ (fun x => by cases posOfJ x <;> rfl)]
+      rename_i ps
+      cases GeoJson.mapE posOfJ ps <;> rfl)]
+    simp only [GeoJson.mapE, mpolyMember, ringsOfJ, bind, Except.bind, pure, Except.pure]
+    cases GeoJson.mapE ringOfJ rs with
+    | error e => rfl
+    | ok rings =>
+      simp only []
+      match rings with
+      | [] => simp [Py.getIdx]
+      | [a] =>
+        simp only [Py.getIdx, List.length_singleton, GeoJson.mapE]
+        cases mkOutlineP a with
+        | error e => simp
+        | ok o =>
+          simp
+          rw [ih _ (fun y hy => h y (by simp [hy]))]
+          cases GeoJson.mapE mpolyMember xs with
+          | error e => rfl
+          | ok ps => simp [List.append_assoc]
+      | a :: b :: t =>
+        have hl : decide ((((a :: b :: t).length : Nat) : Int) > (1 : Int)) = true := by simp <;> omega
+        simp only [Py.getIdx, hl, if_true, List.drop_succ_cons, List.drop_zero]
+        rw [pyMapE_eq_of _ (fun r => mkOutlineP r.reverse) (fun x => by first | rfl | (cases mkOutlineP x.reverse <;> rfl))]
+        cases GeoJson.mapE (fun r => mkOutlineP r.reverse) (b :: t) with
+        | error e => simp
+        | ok hs =>
+          cases mkOutlineP a with
+          | error e => simp
+          | ok o =>
+            simp
+            rw [ih _ (fun y hy => h y (by simp [hy]))]
+            cases GeoJson.mapE mpolyMember xs with
+            | error e => rfl
+            | ok ps => simp [List.append_assoc]
+
+/-- what the model's `MultiGeoPolygon` importer does once the members are read -/
+def mpolyRest (d : Obj) (ks ke : String) (shapes : List Poly) : Except String Shape := do
+  let x ← propsAndDt rt d ks ke
+  pure ⟨.mpoly shapes, x.1, x.2.1⟩
+
+theorem mpolyTail1 (d : Obj) (ks ke : String) (g : Obj) (shapes : List Poly) :
+    mpolyFromGeoJson.loop1 rt d ks ke g [] shapes = mpolyRest rt d ks ke shapes := by
+  rw [mpolyFromGeoJson.loop1]
+  simp only [getDt_eq, mpolyRest, propsAndDt, bind, Except.bind, pure, Except.pure]
+  props_tail d, ks, ke, rt
+
+theorem mpolyTail2 (d : Obj) (ks ke : String) (g : J) (shapes : List Poly) :
+    mpolyFromGeoJson.loop2 rt d ks ke g [] shapes = mpolyRest rt d ks ke shapes := by
+  rw [mpolyFromGeoJson.loop2]
+  simp only [getDt_eq, mpolyRest, propsAndDt, bind, Except.bind, pure, Except.pure]
+  props_tail d, ks, ke, rt
+
+set_option hygiene false in
+local macro "mpoly_model" : tactic =>
+  `(tactic| (
+    simp only [mpolyRest, geomLate, Except.map, bind, Except.bind, pure, Except.pure]
+    cases propsAndDt rt d ks ke <;> rfl))
+
+/-- **`MultiGeoPolygon.from_geojson`** -/
+theorem mpolyFromGeoJson_eq (d : Obj) (ks ke : String) (harr : arr3 (oget (geomOf d) "coordinates") = true) :
+    mpolyFromGeoJson rt d ks ke = (fromGeoJson rt .mpoly (.obj d) ks ke).map (·.1) := by
+  simp only [mpolyFromGeoJson, fromGeoJson, selectGeom, Kind.name, checkType, geomEarly]
+  cases hc : ohas d "coordinates" <;> simp only [Bool.false_eq_true, if_false, if_true]
+  · cases hg : oget d "geometry" with
+    | none => simp [oget, Except.map]
+    | some g =>
+      cases g with
+      | obj g =>
+        simp only [Option.getD_some]
+        have harr' : arr3 (oget g "coordinates") = true := by simpa [geomOf, hc, hg] using harr
+        type_gate g, "MultiPolygon" =>
+          cases hco : oget g "coordinates" with
+          | none =>
+            simp only [Option.getD_none, jIter, mpolyTail2, ht, hp, hco, listOfJ, bind, Except.bind, pure,
+              Except.pure, if_true]
+            mpoly_model
+          | some c =>
+            obtain ⟨xs, rfl, hxs⟩ := arr3_some (hco ▸ harr')
+            simp only [Option.getD_some, jIter, mpolyLoop2_spec rt d ks ke _ xs [] hxs, ht, hp, hco, listOfJ, bind,
+              Except.bind, pure, Except.pure, if_true, List.nil_append]
+            cases GeoJson.mapE mpolyMember xs with
+            | error e => simp [Except.map]
+            | ok rs =>
+              simp only [mpolyTail2]
+              mpoly_model
+      | _ => simp [Except.map]
+  · have harr' : arr3 (oget d "coordinates") = true := by simpa [geomOf, hc] using harr
+    type_gate d, "MultiPolygon" =>
+      cases hco : oget d "coordinates" with
+      | none =>
+        simp only [Option.getD_none, jIter, mpolyTail1, ht, hp, hco, listOfJ, bind, Except.bind, pure,
+          Except.pure, if_true]
+        mpoly_model
+      | some c =>
+        obtain ⟨xs, rfl, hxs⟩ := arr3_some (hco ▸ harr')
+        simp only [Option.getD_some, jIter, mpolyLoop1_spec rt d ks ke _ xs [] hxs, ht, hp, hco, listOfJ, bind,
+          Except.bind, pure, Except.pure, if_true, List.nil_append]
+        cases GeoJson.mapE mpolyMember xs with
+        | error e => simp [Except.map]
+        | ok rs =>
+          simp only [mpolyTail1]
+          mpoly_model
+
 /-! ## the export chain as the source dispatches it
 
 `to_geojson` calls `self.to_geo_interface`, a multi-polygon calls `poly.linear_rings` on its members: Python picks the
